@@ -270,9 +270,9 @@ def _format_rule_default_json(default):
     :param default: A policy.RuleDefault or policy.DocumentedRuleDefault object
     :returns: A string containing a json representation of the RuleDefault
     """  # noqa: E501
-    return ('"%(name)s": "%(check_str)s"' %
-            {'name': default.name,
-             'check_str': default.check_str})
+    return ('%(name)s: %(check_str)s' %
+            {'name': jsonutils.dumps(default.name),
+             'check_str': jsonutils.dumps(default.check_str)})
 
 
 def _sort_and_format_by_section(policies, output_format='yaml',
